@@ -288,7 +288,10 @@ class Clock:
         return True
 
     def advance(self, how, arg):
-        target = self.tu if self.via == 'override' else self.fx
+        # mixed API histories: with a fixture installed, every other step goes through the module-level functions
+        self.nadv = getattr(self, 'nadv', 0) + 1
+        use_module = self.via == 'override' or (self.case.get('mixed') and self.nadv % 2 == 1)
+        target = self.tu if use_module else self.fx
         if how == 'delta':
             return _call(target.advance_time_delta, arg)
         return _call(target.advance_time_seconds, arg)
@@ -484,8 +487,8 @@ def eval_clock(ctx, case):
     from oslo_utils import timeutils as tu
     via = case['via']
     now_us = wall_us(case['now'])
-    ctx.case(('clock', case['now'], via, case['ops']))
-    ctx.h('override via', via)
+    ctx.case(('clock', case['now'], via, case['ops'], bool(case.get('mixed'))))
+    ctx.h('override via', via + ('/mixed-with-module-functions' if case.get('mixed') and via != 'override' else ''))
     clock = Clock(ctx, case, via, case['now'])
     if not clock.start():
         return
@@ -800,7 +803,8 @@ def run(ctx):
                     [1969, 12, 31, 23, 59, 59, 0], [2038, 1, 19, 3, 14, 7, 999999], [1, 1, 1, 0, 0, 0, 0],
                     [9999, 12, 31, 23, 59, 59, 999999], [2000, 2, 29, 23, 59, 59, 999999],
                     [1901, 12, 13, 20, 45, 52, 1]):
-            emit({'kind': 'clock', 'now': now, 'via': via,
+            for mixed in ((False, True) if via != 'override' else (False,)):
+              emit({'kind': 'clock', 'now': now, 'via': via, 'mixed': mixed,
                   'ops': [['seconds', 0.5], ['seconds', -0.5], ['seconds', 1], ['delta', 0, 0, 1],
                           ['delta', 0, 0, -1], ['seconds', -1], ['seconds', 0.000001], ['seconds', -0.000001],
                           ['seconds', 0.999999], ['delta', -1, 86399, 999999], ['seconds', 86400],
@@ -895,7 +899,7 @@ def run(ctx):
                     ops.append(['delta', rc.randint(-400, 400), rc.randint(0, 86399), rc.randrange(US)])
                 else:
                     ops.append(['delta', 0, rc.randint(-10 ** 6, 10 ** 6), 0])
-            go({'kind': 'clock', 'now': now, 'via': rc.choice(VIAS), 'ops': ops})
+            go({'kind': 'clock', 'now': now, 'via': rc.choice(VIAS), 'ops': ops, 'mixed': rc.random() < 0.5})
     for rp, n in blocks('compare', 16000 * scale):
         for i in range(n):
             f = rand_fields(rp) if rp.random() < 0.9 else rand_fields(rp, 40, 9900)
